@@ -11,7 +11,8 @@ import os
 from .core import DAY
 from .calendar_ref import is_bday, ymd
 
-SYMS = ["AAA", "BBB", "CCC", "DDD", "EEE", "FFF", "GGG", "HHH", "III", "JJJ"]
+# symbols that are prefixes / near-duplicates of one another, mixed with plain ones
+SYMS = ["AAA", "AAB", "AA", "BBB", "B", "CCC", "DDD", "EEE", "FFF", "GGG"]
 
 
 def r4(x):
